@@ -1031,7 +1031,7 @@ def stream_parsers_reach_end_of_input(ctx, rid, tab):
         # a helper that takes the parser and answers with (something derived from) a look at parser.token is such a test too
         for c in f.calls():
             h = p.fns.get(c.resolved or "")
-            if h is None or h.crate != f.crate or h.locals[0] != "bool" or c.dest[1]:
+            if h is None or h.crate != f.crate or c.dest[1] or not any("parser::Parser" in t for t in h.locals[1:h.argc + 1]):
                 continue
             looks = any(str(x[2]) in ("token", "kind") for x in h.derived_from(0)["fields"])
             for hb in range(len(h.blocks)):
@@ -1041,9 +1041,13 @@ def stream_parsers_reach_end_of_input(ctx, rid, tab):
                     looks = any(str(x[2]) in ("token", "kind") for x in hd["fields"]) or any(
                         isinstance(e, list) and e[0] == "f" and str(e[4]) in ("token", "kind") for e in ht[1][1][1])
             if looks:
-                from common import bool_branches
-                for sw, tt, ff in bool_branches(f, c.dest[0]):
-                    tests.add(sw)
+                from common import bool_branches, result_edges
+                if h.locals[0] == "bool":
+                    for sw, tt, ff in bool_branches(f, c.dest[0]):
+                        tests.add(sw)
+                else:
+                    for e in result_edges(f, c):
+                        tests.add(e["sw"])
         cons = [c for c in f.calls() if c.name.rsplit("::", 1)[-1].startswith("parse_") or c.name.rsplit("::", 1)[-1] == "check_keyword"]
         errb = {d.bb for d in f.calls() if (d.declared or "") == "std::ops::FromResidual::from_residual"} | {
             bb for bb, i, st in f.stmts() if st[0] == "=" and st[1][0] == 0 and st[2][0] == "agg" and isinstance(st[2][1], list)
